@@ -313,6 +313,68 @@ def main(run):
                                                            f"after {m} updates {tr.get()!r} != {es} (N={tr.N})", {"alphas": als, "pattern": "side-by-side", "updates": m})
                     break
         run.nontriv(("c10-side", rep, run.shard[0]))
+    # ---- the INDUCTIVE STEP from an injected state (the statement's quantifier: "symbolic state, value and alpha executed through
+    # the shipped update code"): state and rate are written through the public attributes (restoring a saved tracker, warm starts,
+    # a re-tuned rate), then update() runs; the next state must be the Welford / smoothing step applied to THAT state.  An
+    # implementation whose attributes cannot be assigned is not judged here (counted, not a verdict).
+    for rep in range(120 if not thorough else 1500):
+        N0 = rnd.choice([0, 1, 2, 7, 255, 256, rnd.randrange(1, 5000)])
+        mean0 = Q(rnd.randrange(-500, 500), rnd.choice([1, 3, 8]))
+        m2_0 = Q(rnd.randrange(0, 90000), rnd.choice([1, 7])) if N0 else Q(0)
+        if N0 == 0:
+            mean0 = Q(0)
+        v = Q(rnd.randrange(-900, 900), rnd.choice([1, 4, 9]))
+        w = WelfordTracker()
+        order = rnd.choice([("N", "tracked_value", "sum_squares"), ("sum_squares", "N", "tracked_value"), ("tracked_value", "sum_squares", "N")])
+        state = {"N": N0, "tracked_value": mean0, "sum_squares": m2_0}
+        try:
+            for attr in order:
+                setattr(w, attr, state[attr])
+        except AttributeError:
+            run.count("state-injection-not-supported")
+            continue
+        replay = {"pattern": "injected-state", "tracker": "welford", "state": {k_: repr(v_) for k_, v_ in state.items()}, "assignment_order": order, "value": repr(v)}
+        try:
+            w.update(v)
+        except Exception as ex:
+            run.violation("update-raises", f"Welford update from the injected state {state!r} raised {type(ex).__name__}: {ex}", replay)
+            break
+        n1 = N0 + 1
+        mean1 = fr(mean0) + (fr(v) - fr(mean0)) / n1
+        m2_1 = fr(m2_0) + (fr(v) - fr(mean0)) * (fr(v) - mean1)
+        run.ok(kind="inductive-step")
+        if not (w.N == n1 and fr(w.mean) == mean1 and fr(w.var) == m2_1 / n1):
+            run.violation("welford-step", f"Welford step from state (N, mean, M2) = ({N0}, {mean0}, {m2_0}) (assigned in the order {order}) with value {v}: "
+                                          f"N={w.N} mean={w.mean!r} var={w.var!r}, expected N={n1} mean={mean1} var={m2_1 / n1}", replay)
+            break
+        # smoothing: rate re-assigned before / in the middle of a stream, state injected
+        a0, a1 = Q(rnd.randrange(0, 1001), 1000), Q(rnd.randrange(0, 1001), 1000)
+        e = ExponentialSmoothingTracker(a0)
+        vals_ = [Q(rnd.randrange(-50, 50), 4) for _ in range(rnd.randrange(0, 6))]
+        s_ = Fraction(0)
+        for vv in vals_:
+            e.update(vv)
+            s_ = (1 - fr(a0)) * s_ + fr(a0) * fr(vv)
+        try:
+            e.alpha = a1
+            if rep % 2:
+                s_ = fr(mean0)
+                e.tracked_value = mean0
+        except AttributeError:
+            run.count("state-injection-not-supported")
+            continue
+        tail_ = [Q(rnd.randrange(-50, 50), 4) for _ in range(rnd.randrange(1, 5))]
+        for vv in tail_:
+            e.update(vv)
+            s_ = (1 - fr(a1)) * s_ + fr(a1) * fr(vv)
+        run.ok(kind="inductive-step")
+        if not (fr(e.get()) == s_):
+            run.violation("smoothing-step", f"smoothing tracker built with alpha={a0}, fed {len(vals_)} values, then alpha re-assigned to {a1}"
+                                            f"{' and the value set to ' + str(mean0) if rep % 2 else ''}, fed {len(tail_)} values: {e.get()!r}, the recursion "
+                                            f"t <- (1-alpha) t + alpha v with the rate in force gives {s_}",
+                          {"pattern": "injected-state", "tracker": "smoothing", "alpha0": repr(a0), "alpha1": repr(a1), "head": [repr(x_) for x_ in vals_], "tail": [repr(x_) for x_ in tail_]})
+            break
+    run.nontriv(("c10-inductive-step", run.shard[0]))
     # ---- float / NumPy scalar inputs against the exact result
     def mk(typ, rnd_):
         if typ in ("uint8",):
